@@ -15,18 +15,14 @@ QUICK += ["%d;a" % c for c in FIRST]
 QUICK += [
     "4:a", "4:a;b", "4:3;a",
     "1;0;a", "0;1;a", "31;1;0;a", "1;4;31;0", "3;0;9", "1;;a",
-    "38;5;a", "38;5;a;b", "48;5;a;b", "58;5;a;b",
-    "38;2;a;b;c", "38;2;a;b;c;d", "48;2;a;b;c;d", "58;2;a;b;c;d",
-    "38;2;a;b;c;48;2;d;e;f",          # what the encoder emits for a face with fg and bg
-    "1;38;5;a;b", "1;38;2;a;b;c;d",
+    # semicolon-form extended colours (`38;5;n`, `38;2;r;g;b;...`) are NOT here: CBMC does not finish them
+    # (> 15 min each); what they need - exactly 2 / 4 parameters consumed, colour exact - is proved on
+    # sgr_color itself by the complete harness c04_sgr_color (group dec_payload)
     "38:5:a", "38:5:a;b", "38:2:a:b:c", "38:2:a:b:c;d", "38:2::a:b:c", "38:2:a:b:c:d", "48:2:a:b:c;d", "58:2:a:b:c",
     "38:2:a:b:c;48:2:d:e:f;g",
 ]
 THOROUGH = [
-    "0;38;2;a;b;c;48;2;d;e;f;4:3;1;3;9",   # a full Face as the encoder writes it
-    "38;2;a;b;c;48;2;d;e;f;58;2;g;h;i;j",
     "1;3;5;9;a", "22;23;25;29;a", "1;22;3;23;a",
-    "38;5;a;48;5;b;58;5;c;d",
     "4:a;24;b", "24;4:a;b",
 ]
 
